@@ -121,6 +121,7 @@ class Engine(object):
         self.trig_args = set()
         self.trig_terms = {}
         self.sqrt_cache = {}
+        self.floor_cache = {}
         self.side_mode = False
         self.side_count = 0
         self.choice_trace = []
@@ -430,6 +431,12 @@ def _z3_attempt(goal, mk, timeout_ms, want_model):
     return res[0], res[2]
 
 
+def _seeded_solver(seed):
+    s = z3.Solver()
+    s.set("random_seed", seed)
+    return s
+
+
 def solve_vc(vc, timeout_ms=20000, want_model=True):
     """returns (status, backend, seconds, model_dict_or_None, attempts)"""
     goal = _mk_goal(vc)
@@ -468,6 +475,11 @@ def solve_vc(vc, timeout_ms=20000, want_model=True):
             # sat answers are not used (real-valued conjuncts were dropped); unsat carries over
             plan = [("z3-int2bv", lambda: z3.Solver(), gbv, False, timeout_ms)] + plan
     plan.append(("z3-full", lambda: z3.Solver(), goal, True, timeout_ms))
+    # z3's incomplete nonlinear core gives up (`unknown`) depending on timing and heuristics: two re-seeded attempts
+    # keep a verdict from flipping to undecided on a busy machine (a different seed can only turn unknown into an answer)
+    for seed in (7, 23):
+        plan.append(("z3-seed%d" % seed, (lambda sd: (lambda: _seeded_solver(sd)))(seed), goal, True,
+                     min(8000, timeout_ms)))
     for tname, mk, g, sat_ok, budget in plan:
         r, model = _z3_attempt(g, mk, budget, want_model and sat_ok)
         attempts.append((tname, r))
